@@ -2,14 +2,25 @@
 import importlib
 
 _MODULES = {
-    "C01": "sim.profiles.fsm",
+    "C01": ("sim.profiles.fsm", "PROFILE"),
+    "C02": ("sim.profiles.lifecycle", "HEAL"),
+    "C03": ("sim.profiles.timers", "PROFILE"),
+    "C04": ("sim.profiles.framing", "PROFILE"),
+    "C05": ("sim.profiles.openpolicy", "PROFILE"),
+    "C10": ("sim.profiles.hostile", "PROFILE"),
+    "C12": ("sim.profiles.lifecycle", "CONN"),
+    "C13": ("sim.profiles.lifecycle", "STOP"),
+    "C16": ("sim.profiles.restapi", "PROFILE"),
+    "C18": ("sim.profiles.lifecycle", "STATS"),
+    "C19": ("sim.profiles.rib", "PROFILE"),
 }
 
 
 def get(prop):
     if prop not in _MODULES:
         raise KeyError("no profile for property %s" % prop)
-    return importlib.import_module(_MODULES[prop]).PROFILE
+    mod, attr = _MODULES[prop]
+    return getattr(importlib.import_module(mod), attr)
 
 
 def ids():
